@@ -1,1 +1,116 @@
-// placeholder
+// K6: checked integer conversions of toml_edit::ser::ValueSerializer -- included at the end of
+// crates/toml_edit/src/ser/value.rs under cfg(kani)
+mod verif_kani_ser_value {
+    use super::*;
+    use serde::ser::Serializer as _;
+
+    fn stub_format(_args: core::fmt::Arguments<'_>) -> String {
+        String::new()
+    }
+
+    #[kani::proof]
+    #[kani::unwind(8)]
+    fn k6_edit_serialize_u64() {
+        let v: u64 = kani::any();
+        let r = ValueSerializer::new().serialize_u64(v);
+        match &r {
+            Ok(val) => {
+                assert!(v <= i64::MAX as u64, "u64 beyond i64 serialized instead of rejected");
+                assert!(val.as_integer() == Some(v as i64), "u64 value altered");
+            }
+            Err(_) => assert!(v > i64::MAX as u64, "u64 within i64 rejected"),
+        }
+        kani::cover!(r.is_ok());
+        kani::cover!(r.is_err());
+        core::mem::forget(r);
+    }
+
+    #[kani::proof]
+    #[kani::unwind(8)]
+    fn k6_edit_serialize_i64() {
+        let v: i64 = kani::any();
+        let r = ValueSerializer::new().serialize_i64(v);
+        match &r {
+            Ok(val) => assert!(val.as_integer() == Some(v), "i64 value altered"),
+            Err(_) => assert!(false, "i64 rejected"),
+        }
+        kani::cover!(r.is_ok());
+        core::mem::forget(r);
+    }
+
+    #[kani::proof]
+    #[kani::unwind(8)]
+    fn k6_edit_serialize_narrow() {
+        let a: u32 = kani::any();
+        let r = ValueSerializer::new().serialize_u32(a);
+        match &r {
+            Ok(val) => assert!(val.as_integer() == Some(a as i64), "u32 value altered"),
+            Err(_) => assert!(false, "u32 rejected"),
+        }
+        core::mem::forget(r);
+        let b: i32 = kani::any();
+        let r = ValueSerializer::new().serialize_i32(b);
+        match &r {
+            Ok(val) => assert!(val.as_integer() == Some(b as i64), "i32 value altered"),
+            Err(_) => assert!(false, "i32 rejected"),
+        }
+        core::mem::forget(r);
+        let c: u16 = kani::any();
+        let r = ValueSerializer::new().serialize_u16(c);
+        match &r {
+            Ok(val) => assert!(val.as_integer() == Some(c as i64), "u16 value altered"),
+            Err(_) => assert!(false, "u16 rejected"),
+        }
+        core::mem::forget(r);
+        let d: i16 = kani::any();
+        let r = ValueSerializer::new().serialize_i16(d);
+        match &r {
+            Ok(val) => assert!(val.as_integer() == Some(d as i64), "i16 value altered"),
+            Err(_) => assert!(false, "i16 rejected"),
+        }
+        core::mem::forget(r);
+        let e: u8 = kani::any();
+        let r = ValueSerializer::new().serialize_u8(e);
+        match &r {
+            Ok(val) => assert!(val.as_integer() == Some(e as i64), "u8 value altered"),
+            Err(_) => assert!(false, "u8 rejected"),
+        }
+        core::mem::forget(r);
+        let f: i8 = kani::any();
+        let r = ValueSerializer::new().serialize_i8(f);
+        match &r {
+            Ok(val) => assert!(val.as_integer() == Some(f as i64), "i8 value altered"),
+            Err(_) => assert!(false, "i8 rejected"),
+        }
+        kani::cover!(r.is_ok());
+        core::mem::forget(r);
+    }
+
+    // 128-bit integers: serde's default (an error) must not be replaced by a lossy impl
+    #[kani::proof]
+    #[kani::unwind(8)]
+    #[kani::stub(alloc::fmt::format, stub_format)]
+    fn k6_edit_serialize_128() {
+        let v: u128 = kani::any();
+        let r = ValueSerializer::new().serialize_u128(v);
+        match &r {
+            Ok(val) => {
+                assert!(v <= i64::MAX as u128, "u128 beyond i64 serialized");
+                assert!(val.as_integer() == Some(v as i64), "u128 value altered");
+            }
+            Err(_) => {}
+        }
+        core::mem::forget(r);
+        let w: i128 = kani::any();
+        let r = ValueSerializer::new().serialize_i128(w);
+        match &r {
+            Ok(val) => {
+                assert!(w >= i64::MIN as i128 && w <= i64::MAX as i128, "i128 beyond i64 serialized");
+                assert!(val.as_integer() == Some(w as i64), "i128 value altered");
+            }
+            Err(_) => {}
+        }
+        kani::cover!(r.is_err());
+        core::mem::forget(r);
+    }
+}
